@@ -88,6 +88,17 @@ let do_step (e : event) : string =
     | SODelivered l -> "D " ^ conns l
     | SOSignals l -> "G " ^ (if l = [] then "-" else String.concat ";" (List.map (fun (n, rc) -> hex_of_bytes n ^ ":" ^ conns rc) l)) in
   let cl = match e with EvAdd (_, t) | EvRemove (_, t) -> " " ^ classes t | _ -> "" in
+  (* do both worlds hold the same rules (as multisets, compared with the specification's rule equality)? *)
+  let same_rules (w : world) =
+    let rec go ms ss = match ms with
+      | [] -> ss = []
+      | r :: rest ->
+          let a = abs_rule r in
+          let rec take = function
+            | [] -> None
+            | x :: xs -> if srule_eqb a x then Some xs else (match take xs with None -> None | Some ys -> Some (x :: ys)) in
+          (match take ss with None -> false | Some ss' -> go rest ss') in
+    go w.w_mm !sworld.sw_bus in
   (match step !limit !world e with
    | None -> "F"
    | Some (w, o) ->
@@ -98,6 +109,7 @@ let do_step (e : event) : string =
               Printf.sprintf " x=%d" (List.length !world.w_mm - List.length w.w_mm - own)
           | _ -> "") in
       world := w;
+      let extra = (match e with EvAdd _ | EvRemove _ | EvDisconnect _ -> extra ^ (if same_rules w then " st=1" else " st=0") | _ -> extra) in
       (fun s -> s ^ extra)
       (match o with
        | OSignal l -> "S " ^ conns l
